@@ -13,6 +13,7 @@ import (
 	"math"
 	"math/rand"
 	"net/url"
+	"os"
 	"strconv"
 	"strings"
 
@@ -591,7 +592,11 @@ func main() {
 		} else if o.err != nil {
 			sample["impl"] = "error: " + o.err.Error()
 		} else {
-			sample["weights"] = o.weights
+			ws := make([]string, len(o.weights))
+			for i, w := range o.weights {
+				ws[i] = strconv.FormatFloat(w, 'g', -1, 64) // strings: JSON has no NaN / Inf
+			}
+			sample["weights"] = ws
 			sample["ring_len"] = len(o.ring)
 			sample["cursor"] = o.cursor
 			sample["pick_panic"] = o.firstPan
@@ -600,10 +605,14 @@ func main() {
 	}
 
 	// how many cases get the complete ring layout recomputed by the model (list-based fill of ~10^4 slots)
-	fullEvery := run.Scale(9, 5)
+	fullEvery := run.Scale(70, 40)
+	debugEdgeOnly := os.Getenv("C04_DEBUG_EDGE_ONLY") != "" // development aid: only the float corner cases
 
 	// 1. weight vectors by class, through the config language
-	perClass := run.Scale(55, 1500)
+	perClass := run.Scale(38, 1500)
+	if debugEdgeOnly {
+		perClass = 0
+	}
 	k := 0
 	for _, cl := range classes {
 		for i := 0; i < perClass; i++ {
@@ -616,7 +625,7 @@ func main() {
 	}
 
 	// 2. route weight commands over services and tags (and deletions) after the adds
-	for i := 0; i < run.Scale(160, 4000); i++ {
+	for i := 0; i < run.Scale(110, 4000) && !debugEdgeOnly; i++ {
 		n := 2 + r.Intn(24)
 		cl := classes[r.Intn(len(classes))]
 		s := &sequence{cmds: addsOf(r, cl.gen(r, n))}
@@ -664,7 +673,7 @@ func main() {
 	}
 
 	// 3. raw float64 weights through the hooks: k/10000 +- 1 ulp, random doubles
-	for i := 0; i < run.Scale(120, 3000); i++ {
+	for i := 0; i < run.Scale(80, 3000) && !debugEdgeOnly; i++ {
 		n := 1 + r.Intn(16)
 		s := &sequence{direct: true}
 		for j := 0; j < n; j++ {
@@ -697,13 +706,13 @@ func main() {
 	}
 
 	// 4. equal slot counts on more than 12 targets (tie order of the unstable sort decides the layout)
-	for i := 0; i < run.Scale(12, 200); i++ {
+	for i := 0; i < run.Scale(9, 200) && !debugEdgeOnly; i++ {
 		n := 13 + r.Intn(28)
 		ws := make([]string, n)
 		for j := range ws {
 			ws[j] = []string{"0.01", "0.02", "0.01", "0.005"}[r.Intn(4)]
 		}
-		emit("ties", &sequence{cmds: addsOf(r, ws)}, i%2 == 0)
+		emit("ties", &sequence{cmds: addsOf(r, ws)}, i%3 == 0)
 	}
 
 	// 5. float64 corner cases through the config language and through setWeight
@@ -728,5 +737,5 @@ func main() {
 	}
 
 	run.Notes["full_ring_cases"] = nFull
-	run.Finish(preamble, run.Scale(60, 250))
+	run.Finish(preamble, run.Scale(38, 250))
 }
